@@ -1744,6 +1744,8 @@ MUTANTS = [
      'edits': [('pmutt/omkm/__init__.py', "            val_str = '\\\"{} {}\\\"'.format(val, param.units)", "            val_str = '\\\"{:.3f} {}\\\"'.format(val, param.units)")]},
     {'name': 'x2: interface entry writes beps= for an empty list of relations', 'expect': ('DATAFLOW.phase', 'InteractingInterface.to_cti'),
      'edits': [('pmutt/omkm/phase.py', "            # Skip blank lists\n            if len(val) == 0:\n                continue\n", "")]},
+    {'name': 'r7: a BEP relation keeps the member lists of the caller instead of copies', 'expect': ('EFFECT.bep-members', 'omkm.BEP.__init__'),
+     'edits': [(R_, "        self.synthesis_reactions = list(synthesis_reactions)\n        self.cleavage_reactions = list(cleavage_reactions)", "        self.synthesis_reactions = synthesis_reactions\n        self.cleavage_reactions = cleavage_reactions")]},
 ]
 # rewrites that leave every written file as it is: the instances added after the second review must stay silent
 EQUIV = [
